@@ -90,7 +90,7 @@ def peer_frames(rng, cfg, n_frames=None, allow_bad=True, big=False):
         else:
             bad_budget -= 1
             b = rng.choice(["rsv", "mask", "opcode", "ctlfrag", "ctllong", "len16", "len64small", "len64huge",
-                            "close1", "utf8", "utf8trunc", "cont", "newmsg", "rsv1cont"])
+                            "close1", "utf8", "utf8trunc", "cont", "newmsg", "rsv1cont", "fragtrunc", "fragtrunc"])
             wrong = None if need_mask else rng.randbytes(4)
             if b == "rsv":
                 out.append((frame(rng.choice([1, 2, 9]), b"x", rsv=rng.choice([1, 2, 3, 4, 5, 6, 7]), mask=mask), "bad-rsv"))
@@ -114,6 +114,21 @@ def peer_frames(rng, cfg, n_frames=None, allow_bad=True, big=False):
                 out.append((frame(1, b"ok" + rng.choice(INVALID_UTF8) + b"tail", mask=mask), "bad-utf8"))
             elif b == "utf8trunc":
                 out.append((frame(1, "é".encode()[:1], mask=mask), "bad-utf8trunc"))
+            elif b == "fragtrunc":
+                # a FRAGMENTED text message whose reassembled payload ends inside a code point (the final frame is a
+                # continuation frame, possibly empty)
+                whole = rng.choice(["abc", "héllo wörld", ""]).encode() + rng.choice([b"\xe2\x82", b"\xc3", b"\xf0\x9f\x98"])
+                nparts = rng.randrange(2, 4)
+                cuts = sorted(rng.randrange(0, len(whole) + 1) for _ in range(nparts - 1))
+                if rng.random() < 0.4:
+                    cuts[-1] = len(whole)        # empty final fragment
+                pieces = [whole[a:b2] for a, b2 in zip([0] + cuts, cuts + [len(whole)])]
+                for i, pc in enumerate(pieces):
+                    m = rng.randbytes(4) if need_mask else None
+                    out.append((frame(1 if i == 0 else 0, pc, fin=int(i == len(pieces) - 1), mask=m), "bad-fragtrunc"))
+                    if rng.random() < 0.2 and i < len(pieces) - 1:
+                        m2 = rng.randbytes(4) if need_mask else None
+                        out.append((frame(9, b"", mask=m2), "ping"))
             elif b == "cont":
                 out.append((frame(0, b"x", mask=mask), "bad-cont"))
             elif b == "newmsg":
